@@ -250,16 +250,27 @@ def c_linesearch():
         f, x0 = SFunc('f'), S.WORLD.point('x0')
         a, b = S.WORLD.point('da'), S.WORLD.point('db')
         dirs = [a - b, a + b, 2 * a][:nd]          # directions sharing leaf points, with different coefficients
+        given = list(dirs)
         x, gx, fx = step(x0, f, dirs)
         k = StepCheck('exact_linesearch_step', '%d directions' % nd)
+        k.exactly('arguments_untouched', (len(dirs), all(a_ is b_ for a_, b_ in zip(dirs, given))), (len(given), True), 'the list of directions given by the caller is left as it was')
+        dirs = given
         k.exactly('records', shape(f.log), ['oracle'] + ['add_constraint'] * (1 + nd), 'oracle at the new point, 1 + %d orthogonality constraints' % nd)
         if shape(f.log) == ['oracle'] + ['add_constraint'] * (1 + nd):
             _, xq, g, fq = f.log[0]
             k.exactly('oracle_at_x', (xq is x, g is gx, fq is fx, x.leaf is not None), (True, True, True, True), 'x is a new leaf, (gx, fx) its oracle output')
             cs = [e[1] for e in f.log[1:]]
-            k.constraint('constraint[x-x0]', cs[0], (x - x0) * gx, 'equality', hyps, '<x - x0, g> = 0')
-            for i, dvec in enumerate(dirs):
-                k.constraint('constraint[d%d]' % i, cs[1 + i], dvec * gx, 'equality', hyps, '<d, g> = 0 for every direction')
+            # (the order in which independent constraints are recorded is immaterial: each documented one is matched with a recorded one not yet used)
+            for label, want, detail in [('constraint[x-x0]', (x - x0) * gx, '<x - x0, g> = 0')] + [('constraint[d%d]' % i, dvec * gx, '<d, g> = 0 for every direction') for i, dvec in enumerate(dirs)]:
+                pick = 0
+                for j, cand in enumerate(cs):
+                    probe = StepCheck('probe')
+                    probe.constraint('p', cand, want, 'equality', hyps, '')
+                    if probe.obs[0].verdict == 'unsat':
+                        pick = j
+                        break
+                k.constraint(label, cs[pick], want, 'equality', hyps, detail)
+                cs = cs[:pick] + cs[pick + 1:]
         out += k.obs
     return out
 
